@@ -4737,3 +4737,11 @@ impl Drop for SharedDatabase {
         }
     }
 }
+
+/// Verification-only access to the crate-private index-key encoder (off unless the feature is enabled).
+#[cfg(feature = "kahflane_turdb_verif")]
+pub mod verif_hooks {
+    pub fn encode_value_as_key<B: crate::encoding::key::KeyBuffer>(value: &crate::types::OwnedValue, buf: &mut B) {
+        super::Database::encode_value_as_key(value, buf)
+    }
+}
